@@ -11,7 +11,7 @@ Record c16case := mkCase { c_nlabels : nat; c_body : cstmts; c_obs : list (bop *
 Definition bop_eqb (a b : bop) : bool :=
   match a, b with
   | OPush, OPush | OBinary, OBinary | OUnary, OUnary | OEndStmt, OEndStmt | ONop, ONop
-  | OOpen, OOpen | OOpenFn, OOpenFn | OThenOpen, OThenOpen | OThenPop, OThenPop | OThenAll, OThenAll
+  | OOpen, OOpen | OOpenFn, OOpenFn | OOpenV, OOpenV | OCloseV, OCloseV | OThenOpen, OThenOpen | OThenPop, OThenPop | OThenAll, OThenAll
   | OElse, OElse | OClose, OClose | OClose2, OClose2 | OCloseFn, OCloseFn | OCloseFnPush, OCloseFnPush => true
   | ONewLabel, ONewLabel => true
   | OCall n, OCall m | OStmt n, OStmt m | OInlineStart n, OInlineStart m | OInlineEnd n, OInlineEnd m => Nat.eqb n m
